@@ -310,6 +310,9 @@ func drawOp(t *rapid.T, kind string, e genEnv) Op {
 		} else {
 			op.S = pick(t, "badpw", badPolicyPWs...)
 		}
+	case "setphone":
+		op.A = rapid.IntRange(0, e.nAcct-1).Draw(t, "acct")
+		op.S = pick(t, "newphone", "+15557770001", "+15557770002")
 	case "updpw":
 		op.A = rapid.IntRange(0, e.nAcct-1).Draw(t, "acct")
 		op.S = pick(t, "pw", goodPWs...)
@@ -823,6 +826,13 @@ func drawSnippet(t *rapid.T, name string, e genEnv) []Op {
 			ops = append(ops, Op{K: "evstart", B: b, N: 0}, Op{K: "evend", B: b, A: a, N: 0, Src: "evtok", SA: a})
 		}
 		ops = append(ops, Op{K: "totpsetup", B: b}, Op{K: "totpconfirm", B: b, A: a, Src: "totpsess"})
+	case "numberswap":
+		// the registered number changes between the password step and the code step
+		if !c.HasSetup("sms") || !c.Has("auth") {
+			return nil
+		}
+		ops = append(ops, login, Op{K: "setphone", A: a, S: pick(t, "newphone", "+15557770001", "+15557770002")},
+			Op{K: "smsvalidate", B: b, A: a, Src: pick(t, "codesrc", "smssess", "smsany"), SA: a})
 	case "setupcarry":
 		// an unfinished SMS setup of one account, then (same session, no logout) the password
 		// step of an SMS account: where does the re-sent login code go?
